@@ -184,11 +184,20 @@ theorem FrM.modInstX_scopeAdd (f : FUid) (sc src : String) (hG : G f) (hs : G sr
     `FlowStarted` event, the flow that started: it is registered in the open scopes of the matching flows).  Then — for every
     state in which `G` is closed, every event and every list of matching heads — every instance outside `G` keeps its status,
     heads, head positions, matching scores, context, arguments … (all but its child list). -/
+theorem FrM.handleMatch (event : Event) (k : Key) (cfg : FlowCfg) (hd : Head) (hGk : G k.1)
+    (hsrc : ∀ u, lookupArg "source_flow_instance_uid" event.ev.args = some (.str u) → G u) :
+    Pres (FrM G) (handleMatch event k cfg hd) := by
+  unfold CoreVM.handleMatch
+  dsimp only
+  pres_search (FrM G) (frmPO G) (first | frm_leaf | (refine FrM.createEventReference _ _ _ _ ?_; g_mem) | (refine FrM.startFlow _ _ ?_; g_mem) | (refine FrM.modInstX_scopeAdd _ _ _ ?_ ?_; (g_mem); (apply hsrc; assumption)) | (rw [pure_bind]) | (rw [unsupported_bind]) | (rw [pyRaise_bind]))
+
+/-- (synced with fixes/C10-handle-match-error-contained.diff: the per-head work `handleMatch` runs inside the try block, a raise is
+    reported as `ColangError` and the head is returned) -/
 theorem FrM.handleEventMatching (event : Event) (heads : List Key) (hH : ∀ k ∈ heads, G k.1)
     (hsrc : ∀ u, lookupArg "source_flow_instance_uid" event.ev.args = some (.str u) → G u) :
     Pres (FrM G) (handleEventMatching event heads) := by
   unfold CoreVM.handleEventMatching
-  pres_search (FrM G) (frmPO G) (first | frm_leaf | (refine FrM.createEventReference _ _ _ _ ?_; g_mem) | (refine FrM.startFlow _ _ ?_; g_mem) | (refine FrM.modInstX_scopeAdd _ _ _ ?_ ?_; (g_mem); (apply hsrc; assumption)) | (rw [pure_bind]) | (rw [unsupported_bind]) | (rw [pyRaise_bind]) | (refine Pres.forIn_mem (frmPO G) _ _ _ ?_; intro k hk b; have hGk := hH k hk))
+  pres_search (FrM G) (frmPO G) (first | frm_leaf | (exact FrM.handleMatch event _ _ _ hGk hsrc) | (rw [pure_bind]) | (rw [unsupported_bind]) | (rw [pyRaise_bind]) | (refine Pres.forIn_mem (frmPO G) _ _ _ ?_; intro k hk b; have hGk := hH k hk))
 
 end frm
 
